@@ -497,7 +497,48 @@ func equivValue(a, b ssa.Value) bool {
 	if oka && okb {
 		return equivValue(la, lb)
 	}
+	// the same field of the same write-once local struct
+	fa, oka := a.(*ssa.FieldAddr)
+	fb, okb := b.(*ssa.FieldAddr)
+	if oka && okb && fa.Field == fb.Field && fa.X == fb.X {
+		if al, ok := fa.X.(*ssa.Alloc); ok && writeOnceStruct(al) {
+			return true
+		}
+	}
 	return false
+}
+
+// writeOnceStruct: the local struct variable is assigned as a whole at most
+// once and its fields are only read afterwards (never stored to, never
+// address-taken into a call or closure).
+func writeOnceStruct(al *ssa.Alloc) bool {
+	if al.Referrers() == nil {
+		return false
+	}
+	stores := 0
+	for _, ref := range *al.Referrers() {
+		switch x := ref.(type) {
+		case *ssa.Store:
+			if x.Addr != ssa.Value(al) {
+				return false
+			}
+			stores++
+		case *ssa.FieldAddr:
+			for _, r2 := range *x.Referrers() {
+				if u, ok := r2.(*ssa.UnOp); ok && u.Op == token.MUL {
+					continue
+				}
+				if _, ok := r2.(*ssa.DebugRef); ok {
+					continue
+				}
+				return false
+			}
+		case *ssa.UnOp, *ssa.DebugRef:
+		default:
+			return false
+		}
+	}
+	return stores <= 1
 }
 
 // ---------------------------------------------------------------- ordering simulation
@@ -726,7 +767,7 @@ func isNamed(t types.Type, pkgRel, name string) bool {
 // index value (kind X, Y or F) except the test of the emission loop: a clamp
 // or range check on the index changes which voxels refine or contain the input.
 func ruleNoClamp(w *World, r *Report, fn string) {
-	r.Rule("NOCLAMP", "in the per-axis zoom functions (HorizontalZoomMinMax, HorizontalZoom, VerticalZoom) branch conditions depend on the zoom difference only; the only comparison of an index value is the bound test of the loop that emits the range (an index clamp or range check silently drops or moves voxels at the edge of the index range)")
+	r.Rule("NOCLAMP", "in the per-axis zoom functions (HorizontalZoomMinMax, HorizontalZoom, VerticalZoom) branch conditions depend on the zoom difference only; an index value is compared only with another index (the bound test of the loop that emits the range, an emptiness test of that range), never with a constant or a zoom-derived limit (an index clamp or range check silently drops or moves voxels at the edge of the index range)")
 	f := lookupByName(w, fn)
 	if f == nil {
 		r.add("NOCLAMP", fn, "?", Unresolved, "function not found")
@@ -748,6 +789,11 @@ func ruleNoClamp(w *World, r *Report, fn string) {
 		kx, ky := ke.Eval(c.X), ke.Eval(c.Y)
 		isIdx := func(a *AV) bool { return a != nil && a.Scalar&idx != 0 && a.Scalar&^idx == 0 }
 		if !isIdx(kx) && !isIdx(ky) {
+			continue
+		}
+		if isIdx(kx) && isIdx(ky) {
+			// two indices compared with each other (range order / emptiness test,
+			// loop bound): not a test against the edge of the index range
 			continue
 		}
 		// loop test: one operand is a loop phi incremented by one in the loop
